@@ -119,6 +119,7 @@ func (H) Gen(prop string, rng *rand.Rand, tier string) *core.Plan {
 	}
 	p.Ops = append(p.Ops, core.Op{K: "flush"}, core.Op{K: "query", S: fmt.Sprint(rng.Intn(1 << 30))}, core.Op{K: "query", S: fmt.Sprint(rng.Intn(1 << 30))})
 	p.Cfg["maporder"] = rng.Intn(2) // tape-chosen iteration order of Go maps in the code under test
+	p.Cfg["fieldmodes"] = rng.Intn(2)
 	if prop == "C11" {
 		p.Cfg["families"] = 1 + rng.Intn(2) // points of one or two hours: one or two data families per shard
 	}
@@ -220,6 +221,15 @@ func (r *run) genSeries() {
 func (r *run) write(op core.Op) {
 	rng := rand.New(rand.NewSource(atoi(op.S)))
 	byShard := map[int][]rows.Point{}
+	// field modes (new plans): a write may carry only the first one or two fields, so files whose metric block
+	// has a single field (a layout of its own) and files with other field sets meet in queries and compactions
+	limit := len(fieldSpecs)
+	if r.c.Plan.C("fieldmodes", 0) == 1 {
+		if m := rand.New(rand.NewSource(atoi(op.S) ^ 0x5eed)).Intn(4); m < 2 {
+			limit = 1 + m
+			r.c.Sim.Probe(fmt.Sprintf("write-with-%d-fields", limit))
+		}
+	}
 	for i := int64(0); i < op.A; i++ {
 		si := rng.Intn(len(r.series))
 		// timestamps inside the first 10 minutes of the hour, slot aligned or not; duplicates and out of order happen
@@ -229,6 +239,9 @@ func (r *run) write(op core.Op) {
 		}
 		var fs []rows.Field
 		for fi, spec := range fieldSpecs {
+			if fi >= limit {
+				break
+			}
 			if rng.Intn(3) == 0 && len(fs) > 0 {
 				continue
 			}
